@@ -25,20 +25,49 @@ func (in *Interp) freshName(name string) string {
 }
 
 func (in *Interp) input(s term.Sort, name string) *term.Term {
+	return in.inputR(s, name, 0, -1)
+}
+
+// inputR: lo..hi is the documented range of an integer input (hi < lo: none)
+func (in *Interp) inputR(s term.Sort, name string, lo, hi int64) *term.Term {
 	name = in.freshName(name)
 	if in.job.Concrete != nil {
 		raw, ok := in.job.Concrete[name]
+		seed, auto := in.job.Concrete["*auto"]
 		switch s.K {
 		case term.KFloat:
 			if ok && strings.HasPrefix(raw, "f:") {
 				u, _ := strconv.ParseUint(raw[2:], 16, 64)
 				return term.FloatC(s, math.Float64frombits(u))
 			}
+			if auto {
+				x := autoFloat(seed, name)
+				if s.Bits == 32 {
+					x = float64(float32(x))
+				}
+				return term.FloatC(s, x)
+			}
 			return term.FloatC(s, 0)
 		case term.KInt:
+			if !ok && auto {
+				switch {
+				case hi >= lo:
+					return term.IntC(s, autoInt(seed, name, lo, hi))
+				case s.Bits < 64:
+					return term.IntC(s, autoIntN(seed, name, s.Bits))
+				default:
+					return term.IntC(s, autoInt(seed, name, -1000, 1000))
+				}
+			}
+			if !ok && hi >= lo {
+				return term.IntC(s, lo)
+			}
 			n, _ := strconv.ParseInt(raw, 10, 64)
 			return term.IntC(s, n)
 		default:
+			if !ok && auto {
+				return term.BoolC(autoBool(seed, name))
+			}
 			return term.BoolC(raw == "true")
 		}
 	}
@@ -102,8 +131,13 @@ func registerHarnessIntrinsics() {
 		return v
 	})
 	reg("VerifInt", func(in *Interp, fn *ssa.Function, a []Value) Value {
-		v := in.input(term.I64, a[0].(string))
 		lo, hi := tt(a[1]), tt(a[2])
+		var v *term.Term
+		if lo.IsConst() && hi.IsConst() {
+			v = in.inputR(term.I64, a[0].(string), lo.Int(), hi.Int())
+		} else {
+			v = in.input(term.I64, a[0].(string))
+		}
 		if !v.IsConst() {
 			in.addPC(term.Le(lo, v))
 			in.addPC(term.Le(v, hi))
@@ -124,8 +158,8 @@ func registerHarnessIntrinsics() {
 	})
 	// VerifChoice(name, n): concrete value in [0,n), one path per value
 	reg("VerifChoice", func(in *Interp, fn *ssa.Function, a []Value) Value {
-		v := in.input(term.I64, a[0].(string))
 		n := in.concInt(a[1])
+		v := in.inputR(term.I64, a[0].(string), 0, n-1)
 		if v.IsConst() {
 			return v
 		}
@@ -245,6 +279,26 @@ func registerHarnessIntrinsics() {
 	})
 	reg("VerifPoolInterference", func(in *Interp, fn *ssa.Function, a []Value) Value {
 		return term.IntC(term.I64, int64(in.poolInterference()))
+	})
+	// VerifWatch(label, obj): see watch.go; VerifUnwatch(label) ends it
+	reg("VerifWatch", func(in *Interp, fn *ssa.Function, a []Value) Value {
+		if in.watch == nil {
+			in.watch = map[*Value]string{}
+		}
+		in.watchCollect(a[0].(string), a[1], map[interface{}]bool{}, 0)
+		return nil
+	})
+	reg("VerifUnwatch", func(in *Interp, fn *ssa.Function, a []Value) Value {
+		for p, l := range in.watch {
+			if l == a[0].(string) {
+				delete(in.watch, p)
+			}
+		}
+		return nil
+	})
+	reg("VerifDefinedAs", func(in *Interp, fn *ssa.Function, a []Value) Value {
+		in.definedLabel = a[0].(string)
+		return nil
 	})
 	reg("VerifIsSymbolic", func(in *Interp, fn *ssa.Function, a []Value) Value { return term.True })
 	reg("VerifItoa", func(in *Interp, fn *ssa.Function, a []Value) Value {
